@@ -3,7 +3,13 @@ open Nv
 open Util
 let n = n_of_int
 let i = int_of_n
-let ntexts = 12
+let ntexts = 24
+(* an injector thread: push (n = 1) or extend (n items g, g+step, ...; `chunk` publications per step) *)
+type thr = { tid : int; sid : int; g : int; n : int; step : int; chunk : int; is_ext : bool;
+             stage : int ref;   (* 0 not started, 1 reserved, 2 returned *)
+             idx : int ref;     (* first reserved index *)
+             pub : int ref }    (* items published so far *)
+let unfinished th = !(th.stage) < 2
 let run_file file tablefile =
   let table = Hashtbl.create 100 and lens = Hashtbl.create 20 in
   Match_cmd.iter_lines tablefile (fun l ->
@@ -21,7 +27,7 @@ let run_file file tablefile =
       let s = ref Nucleo.init_nstate in
       let ev e = s := Nucleo.do_event sc ln !s e in
       let inj_notifies = ref 0 in
-      let threads : (int, (int * int * int ref * int ref)) Hashtbl.t = Hashtbl.create 10 in (* t -> sid, g, stage, idx *)
+      let threads : (int, thr) Hashtbl.t = Hashtbl.create 10 in
       let obs = ref [] in
       let push o = obs := o :: !obs in
       let idle () = (match !s.Nucleo.tpc with Nucleo.TIdle -> true | _ -> false) in
@@ -31,12 +37,36 @@ let run_file file tablefile =
         match String.split_on_char ' ' (String.trim evs) with
         | ["push"; t; h; g] ->
           (match List.find_opt (fun (h', _) -> i h' = int_of_string h) !s.Nucleo.injectors with
-           | Some (_, sid) -> Hashtbl.replace threads (int_of_string t) (i sid, int_of_string g, ref 0, ref 0); push "-"
+           | Some (_, sid) -> Hashtbl.replace threads (int_of_string t) { tid = int_of_string t; sid = i sid; g = int_of_string g; n = 1; step = 1; chunk = 1; is_ext = false; stage = ref 0; idx = ref 0; pub = ref 0 }; push "-"
+           | None -> push "NOINJ")
+        | "ext" :: t :: h :: g :: cnt :: rest ->
+          let cnt = int_of_string cnt in
+          let step = (match rest with x :: _ -> int_of_string x | [] -> 1) in
+          let chunk = max 1 (match rest with _ :: x :: _ -> int_of_string x | _ -> cnt) in
+          (match List.find_opt (fun (h', _) -> i h' = int_of_string h) !s.Nucleo.injectors with
+           | Some (_, sid) -> Hashtbl.replace threads (int_of_string t) { tid = int_of_string t; sid = i sid; g = int_of_string g; n = cnt; step; chunk; is_ext = true; stage = ref 0; idx = ref 0; pub = ref 0 }; push "-"
            | None -> push "NOINJ")
         | ["st"; t] ->
           (match Hashtbl.find_opt threads (int_of_string t) with
            | None -> push "-"
-           | Some (sid, g, stage, idx) ->
+           | Some th when th.is_ext ->
+             (* Vec::extend: one fetch_add reserves the whole range (n consecutive reservations with nothing in
+                between); the entries are then published in index order, `chunk` of them per step; notify after the last *)
+             if !(th.stage) = 0 then begin
+               th.idx := i (Nucleo.count_of !s (n th.sid));
+               for k = 0 to th.n - 1 do
+                 Hashtbl.replace items (th.sid, !(th.idx) + k) (th.g + k * th.step);
+                 ev (Nucleo.EReserve (n th.sid))
+               done;
+               th.stage := 1; push "Yext_res"
+             end else if !(th.stage) = 1 then begin
+               let m = min th.chunk (th.n - !(th.pub)) in
+               for k = 0 to m - 1 do ev (Nucleo.EPublish (n th.sid, n (!(th.idx) + !(th.pub) + k))) done;
+               th.pub := !(th.pub) + m;
+               if !(th.pub) >= th.n then begin incr inj_notifies; th.stage := 2; push (Printf.sprintf "E%d" !(th.idx)) end
+               else push "Yext_pub"
+             end else push (Printf.sprintf "E%d" !(th.idx))
+           | Some { sid; g; stage; idx; _ } ->
              if !stage = 0 then begin
                idx := i (Nucleo.count_of !s (n sid));
                Hashtbl.replace items (sid, !idx) g;
@@ -101,9 +131,20 @@ let run_file file tablefile =
 (* ---- model-guided history generation: `driver nucleo-gen SEED COUNT` ------------------------------ *)
 (* random walks over the ENABLED events of the model (so that the real threads never block where the
    scheduler cannot see them); the pattern pool / text pool are those of harness/hn/src/nucleo_cmd.rs *)
-let npatterns = 7
-(* pool text extensions for truthful append flags: "a"->"ab"->"abc", "ab"->"ab c" *)
-let extends_ old nw = (old = 0) || (old = 1 && (nw = 2 || nw = 3 || nw = 6)) || (old = 2 && (nw = 3 || nw = 6))
+(* the pattern pool of the harness: (column 0 text, column 1 text); ids 0..6 = the earlier one-column pool *)
+let patterns = [| ("", ""); ("a", ""); ("ab", ""); ("abc", ""); ("b", ""); ("x", ""); ("ab c", "");
+                  ("", "p"); ("a", "p"); ("ab", "q"); ("a", "pq"); ("b", "p"); ("ab", "p"); ("a", "q") |]
+let npatterns = Array.length patterns
+let is_prefix a b = String.length a <= String.length b && String.sub b 0 (String.length a) = a
+(* truthful append flag of `edit nw 1` after pool entry `old`: EVERY column whose text changes is extended (the old
+   text is a prefix of the new one); the harness reparses exactly the changed columns, so the combined status (max
+   over the columns) is Update iff this holds - the flag of the model's single EEdit.  Re-typing the same entry
+   reparses column 0 with the same text: only the empty entry counts as an extension of itself (as before). *)
+let extends_ old nw =
+  if old = nw then old = 0 else
+  let (o0, o1) = patterns.(old) and (n0, n1) = patterns.(nw) in
+  (o0 = n0 || is_prefix o0 n0) && (o1 = n1 || is_prefix o1 n1)
+let nstyles = 12
 let gen ?tablefile seed count =
   Random.init seed;
   (* with the score table of the harness (pattern pool x text pool) the generator's model state is exactly the one
@@ -123,12 +164,12 @@ let gen ?tablefile seed count =
     let text_of sid idx = match Hashtbl.find_opt items (i sid, i idx) with Some g -> g mod ntexts | None -> 0 in
     let sc p sid idx = match Hashtbl.find_opt table (i p, text_of sid idx) with Some (Some v) -> Some (n v) | _ -> None in
     let ln sid idx = match Hashtbl.find_opt lens (text_of sid idx) with Some l -> n l | None -> N0 in
-    let style = hk mod 8 in
+    let style = hk mod nstyles in
     let s = ref Nucleo.init_nstate in
     let ev e = s := Nucleo.do_event sc ln !s e in
     let out = ref [] in
     let emit x = out := x :: !out in
-    let threads = ref [] in         (* (tid, sid, stage ref, idx ref, g) *)
+    let threads : thr list ref = ref [] in
     let next_t = ref 1 and next_h = ref 1 and next_g = ref (Random.int 12) in
     let idle () = (match !s.Nucleo.tpc with Nucleo.TIdle -> true | _ -> false) in
     let held_run () = (match !s.Nucleo.post with Nucleo.PNone -> (match !s.Nucleo.lock with Nucleo.HeldRun _ -> true | _ -> false) | _ -> true) in
@@ -139,45 +180,104 @@ let gen ?tablefile seed count =
         let cnt = i (Nucleo.count_of !s sid) in
         let seen = List.filter (fun k -> Nucleo.published !s sid (n k)) (List.init cnt (fun k -> k)) in
         ev (Nucleo.ERun (List.map n seen, n cnt)); emit "run"; true end else false in
+    let step_thread th =
+      if th.is_ext then begin
+        if !(th.stage) = 0 then begin
+          th.idx := i (Nucleo.count_of !s (n th.sid));
+          for k = 0 to th.n - 1 do
+            Hashtbl.replace items (th.sid, !(th.idx) + k) (th.g + k * th.step);
+            ev (Nucleo.EReserve (n th.sid))
+          done;
+          th.stage := 1
+        end else begin
+          let m = min th.chunk (th.n - !(th.pub)) in
+          for k = 0 to m - 1 do ev (Nucleo.EPublish (n th.sid, n (!(th.idx) + !(th.pub) + k))) done;
+          th.pub := !(th.pub) + m;
+          if !(th.pub) >= th.n then th.stage := 2
+        end
+      end else begin
+        if !(th.stage) = 0 then begin th.idx := i (Nucleo.count_of !s (n th.sid)); Hashtbl.replace items (th.sid, !(th.idx)) th.g; ev (Nucleo.EReserve (n th.sid)); th.stage := 1 end
+        else begin ev (Nucleo.EPublish (n th.sid, n !(th.idx))); th.stage := 2 end
+      end;
+      emit (Printf.sprintf "st %d" th.tid) in
     let do_st () =
       (* style 1: keep writers parked between reservation and publication most of the time *)
-      let cands = List.filter (fun (_, _, st, _, _) -> !st < 2) !threads in
-      let cands = if style = 1 && Random.int 5 > 0 then List.filter (fun (_, _, st, _, _) -> !st = 0) cands else cands in
+      let cands = List.filter unfinished !threads in
+      let cands = if style = 1 && Random.int 5 > 0 then List.filter (fun th -> !(th.stage) = 0) cands else cands in
       match cands with
       | [] -> false
-      | l -> let (t, sid, st, idx, g) = List.nth l (Random.int (List.length l)) in
-        if !st = 0 then begin idx := i (Nucleo.count_of !s (n sid)); Hashtbl.replace items (sid, !idx) g; ev (Nucleo.EReserve (n sid)); st := 1 end
-        else begin ev (Nucleo.EPublish (n sid, n !idx)); st := 2 end;
-        emit (Printf.sprintf "st %d" t); true in
+      | l -> step_thread (List.nth l (Random.int (List.length l))); true in
+    let finish_thread th = let f = ref 200 in while unfinished th && !f > 0 do decr f; step_thread th done in
+    (* Injector::extend with cnt items g0, g0+stp, ...; chunk publications per step *)
+    let do_ext cnt stp chunk =
+      match !s.Nucleo.injectors with
+      | [] -> None
+      | l ->
+        let (h, sid) = List.nth l (Random.int (List.length l)) in
+        let th = { tid = !next_t; sid = i sid; g = !next_g; n = cnt; step = stp; chunk; is_ext = true; stage = ref 0; idx = ref 0; pub = ref 0 } in
+        threads := th :: !threads;
+        emit (Printf.sprintf "ext %d %d %d %d %d %d" !next_t (i h) !next_g cnt stp chunk);
+        incr next_t; next_g := !next_g + 1 + Random.int 5; Some th in
+    let small_ext () = let cnt = 2 + Random.int 6 in do_ext cnt (1 + Random.int 4) (if Random.bool () then cnt else 1 + Random.int 3) in
     let do_push () =
       match !s.Nucleo.injectors with
       | [] -> false
-      | l -> if List.length (List.filter (fun (_, _, st, _, _) -> !st < 2) !threads) >= (if style = 1 then 7 else 4) then false else begin
+      | l -> if List.length (List.filter unfinished !threads) >= (if style = 1 then 7 else 4) then false
+        else if Random.int 6 = 0 then (ignore (small_ext ()); true)
+        else begin
           let (h, sid) = List.nth l (Random.int (List.length l)) in
-          threads := (!next_t, i sid, ref 0, ref 0, !next_g) :: !threads;
+          threads := { tid = !next_t; sid = i sid; g = !next_g; n = 1; step = 1; chunk = 1; is_ext = false; stage = ref 0; idx = ref 0; pub = ref 0 } :: !threads;
           emit (Printf.sprintf "push %d %d %d" !next_t (i h) !next_g);
           incr next_t; next_g := !next_g + 1 + Random.int 3; true end in
     let do_inj () = if idle () then begin ev (Nucleo.ENewInjector (n !next_h)); emit (Printf.sprintf "inj %d" !next_h); incr next_h; true end else false in
     let do_obs () = if idle () then (emit "obs"; true) else false in
     let cur_pat = ref 0 in
+    let all_pats = List.init npatterns (fun q -> q) in
+    let edit_to p app = ev (Nucleo.EEdit (n p, app, false)); emit (Printf.sprintf "edit %d %d" p (Bool.to_int app)); cur_pat := p in
+    let exts_of p = List.filter (fun q -> q <> p && extends_ p q) all_pats in
+    let pick l = List.nth l (Random.int (List.length l)) in
     let do_edit () =
       if idle () then begin
         let p = Random.int npatterns in
         let app = extends_ !cur_pat p && Random.int 4 > 0 in
-        ev (Nucleo.EEdit (n p, app, false)); emit (Printf.sprintf "edit %d %d" p (Bool.to_int app)); cur_pat := p;
+        edit_to p app;
         (* typing burst: a (usually non-append) edit directly followed by an append edit, no tick in between *)
         if Random.int 2 = 0 then begin
-          let exts = List.filter (fun q -> q <> p && extends_ p q) (List.init npatterns (fun q -> q)) in
-          if exts <> [] then begin
-            let q = List.nth exts (Random.int (List.length exts)) in
-            ev (Nucleo.EEdit (n q, true, false)); emit (Printf.sprintf "edit %d 1" q); cur_pat := q
-          end
+          let exts = exts_of p in
+          if exts <> [] then edit_to (pick exts) true
         end;
         true end else false in
     let do_restart () = if idle () then begin let c = Random.bool () in ev (Nucleo.ERestart c); emit (Printf.sprintf "restart %d" (Bool.to_int c)); true end else false in
     let do_tick () = if idle () then begin let z = ((style = 3 || style = 5) && Random.int 4 > 0) || Random.int 3 = 0 in ev (Nucleo.ETickBegin z); emit (Printf.sprintf "tick %d" (if z then 0 else 1)); true end else false in
+    let tick_begin z = ev (Nucleo.ETickBegin z); emit (if z then "tick 0" else "tick 1") in
+    (* finish the tick in progress and the run (to the point where the pool thread is idle again) *)
+    let settle () = let f = ref 200 in while !f > 0 && (not (idle ()) || held_run ()) do decr f; if not (do_ut ()) then ignore (do_run ()) done in
+    (* let the tick in progress return (a timed-out tick leaves the run parked) *)
+    let finish_tick () = let f = ref 50 in while !f > 0 && not (idle ()) do decr f; if not (do_ut ()) then ignore (do_run ()) done in
+    let run_parked_before_sort () = (match !s.Nucleo.post, !s.Nucleo.lock with Nucleo.PNone, Nucleo.HeldRun ((Nucleo.RStart | Nucleo.RSort _), _, _) -> true | _ -> false) in
+    let run_at_start () = (match !s.Nucleo.post, !s.Nucleo.lock with Nucleo.PNone, Nucleo.HeldRun (Nucleo.RStart, _, _) -> true | _ -> false) in
     ignore (do_inj ());
-    if style <> 4 then (ignore (do_push ()); ignore (do_push ()));
+    if style = 8 then begin
+      (* style 8: bulk - the history starts with one or two Injector::extend calls of 25..60 items whose pool ids
+         cycle through a few texts (step s: 24 / gcd(24, s) distinct texts), so that many matches tie on (score,
+         total length) and are interleaved with matches of other scores / lengths; more than 20 matches take the
+         sort off its insertion-sort path *)
+      let steps_ = [| 1; 1; 2; 3; 4; 5; 6; 7; 8; 9; 12 |] in
+      let k = 1 + Random.int 2 in
+      let ths = List.filter_map (fun _ ->
+          let cnt = 25 + Random.int 36 in
+          let chunk = (match Random.int 5 with 0 | 1 -> cnt | 2 -> (cnt + 1) / 2 | 3 -> 10 | _ -> 5) in
+          do_ext cnt steps_.(Random.int (Array.length steps_)) chunk) (List.init k (fun _ -> ())) in
+      if Random.int 3 > 0 then List.iter finish_thread ths
+      else List.iter (fun th -> for _ = 1 to 1 + Random.int 4 do if unfinished th then step_thread th done) ths;
+      (* a pattern with many matches in the pool *)
+      if Random.int 5 > 0 then begin
+        let rich = [| 1; 1; 2; 4; 7; 8; 13; 9 |] in
+        let p = rich.(Random.int (Array.length rich)) in
+        edit_to p (Random.bool ())
+      end
+    end
+    else if style <> 4 then (ignore (do_push ()); ignore (do_push ()));
     let steps = 25 + Random.int 50 in
     for _ = 1 to steps do
       let r = Random.int 100 in
@@ -192,7 +292,7 @@ let gen ?tablefile seed count =
         else if r < 91 then do_inj ()
         else if r < 93 then (match !s.Nucleo.injectors with (h, _) :: _ when Random.bool () -> ev (Nucleo.ECloneInjector (h, n !next_h)); emit (Printf.sprintf "clone %d %d" (i h) !next_h); incr next_h; true | _ -> false)
         else if r < 95 then (match !s.Nucleo.injectors with [] -> false | l -> let (h, _) = List.nth l (Random.int (List.length l)) in
-                              if List.exists (fun (_, _, st, _, _) -> !st < 2) !threads then false else begin ev (Nucleo.EDropInjector h); emit (Printf.sprintf "dropinj %d" (i h)); true end)
+                              if List.exists unfinished !threads then false else begin ev (Nucleo.EDropInjector h); emit (Printf.sprintf "dropinj %d" (i h)); true end)
         else do_obs () in
       ignore ok;
       (* style 5: cancel-heavy - as soon as a tick has answered `running`, edit the pattern and tick again
@@ -205,32 +305,23 @@ let gen ?tablefile seed count =
        timeout, run to completion), then type WITHOUT a tick in between a new text P1 that does not extend P0
        (append = false) and an extension P2 of P1 (append = true); the wind-down below then ticks to quiescence *)
     if style = 6 then begin
-      let f0 = ref 200 in
-      while !f0 > 0 && (not (idle ()) || held_run ()) do decr f0; if not (do_ut ()) then ignore (do_run ()) done;
+      settle ();
       if idle () then begin
         (* publish most of what is in flight so that the worker has something to (not) match *)
         for _ = 1 to 6 do if Random.int 4 > 0 then ignore (do_st ()) done;
         if !cur_pat = 0 || Random.int 3 = 0 then begin
           let p0 = 1 + Random.int (npatterns - 1) in
-          let app = extends_ !cur_pat p0 && Random.bool () in
-          ev (Nucleo.EEdit (n p0, app, false)); emit (Printf.sprintf "edit %d %d" p0 (Bool.to_int app)); cur_pat := p0
+          edit_to p0 (extends_ !cur_pat p0 && Random.bool ())
         end;
-        ev (Nucleo.ETickBegin false); emit "tick 1";
-        let f1 = ref 200 in
-        while !f1 > 0 && (not (idle ()) || held_run ()) do decr f1; if not (do_ut ()) then ignore (do_run ()) done;
-        if Random.bool () then begin
-          ev (Nucleo.ETickBegin false); emit "tick 1";
-          let f2 = ref 200 in
-          while !f2 > 0 && (not (idle ()) || held_run ()) do decr f2; if not (do_ut ()) then ignore (do_run ()) done
-        end;
+        tick_begin false;
+        settle ();
+        if Random.bool () then begin tick_begin false; settle () end;
         ignore (do_obs ());
         if idle () then begin
-          let firsts = List.filter (fun q -> q <> !cur_pat && List.exists (fun r -> r <> q && extends_ q r) (List.init npatterns (fun r -> r))) (List.init npatterns (fun q -> q)) in
-          let p1 = List.nth firsts (Random.int (List.length firsts)) in
-          ev (Nucleo.EEdit (n p1, false, false)); emit (Printf.sprintf "edit %d 0" p1);
-          let exts = List.filter (fun r -> r <> p1 && extends_ p1 r) (List.init npatterns (fun r -> r)) in
-          let p2 = List.nth exts (Random.int (List.length exts)) in
-          ev (Nucleo.EEdit (n p2, true, false)); emit (Printf.sprintf "edit %d 1" p2); cur_pat := p2;
+          let firsts = List.filter (fun q -> q <> !cur_pat && exts_of q <> []) all_pats in
+          let p1 = pick firsts in
+          edit_to p1 false;
+          edit_to (pick (exts_of p1)) true;
           if Random.int 3 = 0 then ignore (do_push ());
           for _ = 1 to 3 do if Random.bool () then ignore (do_st ()) done
         end
@@ -240,17 +331,15 @@ let gen ?tablefile seed count =
        finishes and is NOT collected, restart, a zero-timeout tick that spawns the first run over the new stream and
        times out on it, observations while that run is still parked; then the wind-down *)
     if style = 7 then begin
-      let f0 = ref 200 in
-      while !f0 > 0 && (not (idle ()) || held_run ()) do decr f0; if not (do_ut ()) then ignore (do_run ()) done;
+      settle ();
       if idle () && not (held_run ()) then begin
         if !s.Nucleo.injectors = [] then ignore (do_inj ());
         (* make sure there is work for the run: a new item, published *)
         ignore (do_push ());
         for _ = 1 to 8 do if Random.int 5 > 0 then ignore (do_st ()) done;
         if Random.int 3 = 0 then ignore (do_edit ());
-        ev (Nucleo.ETickBegin true); emit "tick 0";
-        let f1 = ref 50 in
-        while !f1 > 0 && not (idle ()) do decr f1; if not (do_ut ()) then ignore (do_run ()) done;
+        tick_begin true;
+        finish_tick ();
         let f2 = ref 50 in
         while !f2 > 0 && held_run () do decr f2; ignore (do_run ()) done;
         if Random.int 4 > 0 then ignore (do_obs ());
@@ -258,9 +347,8 @@ let gen ?tablefile seed count =
         ignore (do_restart ());
         if Random.int 3 = 0 then ignore (do_obs ());
         if Random.int 3 = 0 then (ignore (do_inj ()); ignore (do_push ()); ignore (do_st ()); ignore (do_st ()));
-        ev (Nucleo.ETickBegin true); emit "tick 0";
-        let f3 = ref 50 in
-        while !f3 > 0 && not (idle ()) do decr f3; if not (do_ut ()) then ignore (do_run ()) done;
+        tick_begin true;
+        finish_tick ();
         ignore (do_obs ());
         if Random.bool () then begin
           (* a second timed-out tick while the run over the new stream is still parked / finished but not collected *)
@@ -271,10 +359,104 @@ let gen ?tablefile seed count =
         end
       end
     end;
+    (* new items for the epilogues of styles 9 / 10: a push or a small extend, mostly published *)
+    let feed () =
+      if !s.Nucleo.injectors = [] || not (List.exists (fun (_, sid) -> i sid = i !s.Nucleo.cur) !s.Nucleo.injectors) then ignore (do_inj ());
+      List.iter (fun th -> if Random.int 6 > 0 then finish_thread th) (List.filter unfinished !threads);
+      let cur_inj = List.filter (fun (_, sid) -> i sid = i !s.Nucleo.cur) !s.Nucleo.injectors in
+      (match cur_inj with
+       | [] -> ()
+       | l ->
+         let (h, sid) = pick l in
+         let cnt = 3 + Random.int 8 in
+         let th = { tid = !next_t; sid = i sid; g = !next_g; n = cnt; step = 1 + Random.int 5; chunk = cnt; is_ext = true; stage = ref 0; idx = ref 0; pub = ref 0 } in
+         threads := th :: !threads;
+         emit (Printf.sprintf "ext %d %d %d %d %d %d" th.tid (i h) th.g cnt th.step th.chunk);
+         incr next_t; next_g := !next_g + 1 + Random.int 5;
+         finish_thread th) in
+    (* style 9: cancelled run, then the empty pattern - the history ends with: a zero-timeout tick leaves a run over a
+       non-empty pattern parked before its sort, the pattern is edited to the EMPTY one, the next tick cancels the run in
+       flight and spawns the (trivial) empty-pattern run; then the wind-down to quiescence *)
+    if style = 9 then begin
+      settle ();
+      if idle () && not (held_run ()) then begin
+        if Random.int 4 > 0 then feed ();
+        let p0 = 1 + Random.int (npatterns - 1) in
+        edit_to p0 (extends_ !cur_pat p0 && Random.bool ());
+        tick_begin true;
+        finish_tick ();
+        if idle () && run_parked_before_sort () then begin
+          if run_at_start () && Random.bool () then ignore (do_run ());
+          if Random.int 4 = 0 then ignore (do_obs ());
+          edit_to 0 false;
+          tick_begin (Random.int 3 = 0);
+          ignore (do_ut ())
+        end
+      end
+    end;
+    (* style 10: scan cancelled by an append edit - the history ends with: a run that takes the scoring scan over new
+       items (status Unchanged after the worker settled on P0, or the first run over a cleared worker) is left parked
+       at run.start by a zero-timeout tick; an extension of P0 is typed with append = true; the next tick sets the
+       cancel flag before the run scans (the scan leaves unscored entries), and its Update run has to score them *)
+    if style = 10 then begin
+      settle ();
+      if idle () && not (held_run ()) then begin
+        let bases = List.filter (fun q -> q <> 0 && exts_of q <> []) all_pats in
+        let fresh = Random.int 3 = 0 in
+        if fresh then begin
+          (* the first run after a restart: cleared worker, no matches - the scoring scan whatever the status *)
+          ignore (do_restart ());
+          if not (List.mem !cur_pat bases) || Random.bool () then begin let p0 = pick bases in edit_to p0 (extends_ !cur_pat p0 && Random.bool ()) end;
+          feed ()
+        end else begin
+          if not (List.mem !cur_pat bases) || Random.int 3 = 0 then begin let p0 = pick bases in edit_to p0 (extends_ !cur_pat p0 && Random.bool ()) end;
+          if Random.bool () then feed ();
+          tick_begin false; settle ();
+          if Random.bool () then begin tick_begin false; settle () end;
+          if Random.int 3 = 0 then ignore (do_obs ());
+          feed ()
+        end;
+        if idle () && not (held_run ()) then begin
+          tick_begin true;
+          finish_tick ();
+          if idle () && run_at_start () then begin
+            edit_to (pick (exts_of !cur_pat)) true;
+            tick_begin (Random.int 3 = 0);
+            ignore (do_ut ())
+          end
+        end
+      end
+    end;
+    (* style 11: two columns typed between two ticks - the history ends with: the worker settles on a pool entry, then
+       WITHOUT a tick in between column 1 is replaced (not an append) and column 0 is extended (append), as one
+       edit or as two; the combined status must be Rescore *)
+    if style = 11 then begin
+      settle ();
+      if idle () && not (held_run ()) then begin
+        if Random.int 3 > 0 then feed ();
+        let two = [| 7; 8; 10; 12; 13 |] in
+        if not (Array.mem !cur_pat two) || Random.bool () then begin let p0 = two.(Random.int (Array.length two)) in edit_to p0 (extends_ !cur_pat p0 && Random.bool ()) end;
+        tick_begin false; settle ();
+        if Random.bool () then begin tick_begin false; settle () end;
+        if Random.int 3 = 0 then ignore (do_obs ());
+        if idle () && not (held_run ()) then begin
+          let (c0, c1) = patterns.(!cur_pat) in
+          (* entries that extend column 0 and replace column 1 *)
+          let mixed = List.filter (fun q -> let (q0, q1) = patterns.(q) in q0 <> c0 && is_prefix c0 q0 && q1 <> c1 && not (is_prefix c1 q1)) all_pats in
+          (* the same in two edits: first column 1 alone, then column 0 alone *)
+          let via = List.filter (fun q -> let (q0, q1) = patterns.(q) in q0 = c0 && q1 <> c1 && not (is_prefix c1 q1)) all_pats in
+          let two_step = List.concat_map (fun q -> let (q0, q1) = patterns.(q) in
+                                           List.filter_map (fun r -> let (r0, r1) = patterns.(r) in if r1 = q1 && r0 <> q0 && is_prefix q0 r0 then Some (q, r) else None) all_pats) via in
+          if two_step <> [] && (mixed = [] || Random.bool ()) then begin
+            let (q, r) = pick two_step in edit_to q false; edit_to r true
+          end else if mixed <> [] then edit_to (pick mixed) false
+        end
+      end
+    end;
     (* wind down to quiescence: finish the tick, the run, the writers; then tick until not running *)
-    let fuel = ref 400 in
+    let fuel = ref 600 in
     let progress () = decr fuel; !fuel > 0 in
-    while progress () && (not (idle ()) || held_run () || List.exists (fun (_, _, st, _, _) -> !st < 2) !threads) do
+    while progress () && (not (idle ()) || held_run () || List.exists unfinished !threads) do
       if not (do_ut ()) then if not (do_run ()) then ignore (do_st ())
     done;
     ignore (do_obs ());
